@@ -299,3 +299,183 @@ def rule_lossy_independent_shortcuts(col, facts):
                         col.check(R, "%s:shortcut#%d" % (last_seg(name), n), not dep,
                                   "a zero/infinity short-circuit return is only taken when lossy is %s: lossy parsing would change zero / infinity results" % dep, f.loc(st[3]))
         col.floor(R, "zero/inf short-circuits in %s" % last_seg(name), n, 1)
+
+
+# ---------------------------------------------------------------------------------------------
+def eval_int(e, env):
+    """Evaluate a comparison's integer sub-expression under an assignment of its atoms
+    (field projections and named constants); None if anything else occurs."""
+    e = strip_casts(e)
+    if e[0] == "k" and isinstance(e[1], int):
+        return e[1]
+    if e[0] == "kc":
+        return env.get(last_seg(e[1]))
+    if e[0] == "proj" or e[0] == "arg":
+        return env.get("exp") if ("proj" == e[0] and 1 in [p for p in e[2] if isinstance(p, int)]) else None
+    if e[0] == "un" and e[1] == "Neg":
+        v = eval_int(e[2], env)
+        return None if v is None else -v
+    if e[0] == "bin" and e[1] in ("Add", "Sub"):
+        a, b = eval_int(e[2], env), eval_int(e[3], env)
+        if a is None or b is None:
+            return None
+        return a + b if e[1] == "Add" else a - b
+    return None
+
+
+def denormal_predicate(f):
+    """The comparison of `fp.exp` with an expression of MANTISSA_SIZE, as a truth function of exp."""
+    for i, b in enumerate(f.blocks):
+        t = b["t"]
+        if t["k"] == "switch" and f.live(i):
+            e = strip_casts(op_expr(f, t["d"]))
+            if e[0] == "bin" and e[1] in ("Le", "Lt", "Ge", "Gt") and "MANTISSA_SIZE" in str(e) and "proj" in str(e):
+                def truth(exp, e=e):
+                    env = {"MANTISSA_SIZE": 52, "exp": exp}
+                    a, bb = eval_int(e[2], env), eval_int(e[3], env)
+                    if a is None or bb is None:
+                        return None
+                    return {"Le": a <= bb, "Lt": a < bb, "Ge": a >= bb, "Gt": a > bb}[e[1]]
+                return truth, i
+    return None, None
+
+
+def rule_error_accounting(col, facts):
+    """SIB-denormal / UNIT-errors(scale): error_is_accurate must call the same exponents 'denormal' as
+    shared::round does (else it inspects the wrong bit window for one binade), and must compare the raw
+    error count (1/8-ulp units) - never a scaled-down copy."""
+    if not (facts.config.startswith("compact") or "radix" in facts.config):
+        return
+    R = "SIB-denormal"
+    ea = facts.fn(PF + "bellerophon::error_is_accurate")
+    rd = facts.fn(PF + "shared::round")
+    t1, _ = denormal_predicate(ea)
+    t2, _ = denormal_predicate(rd)
+    if t1 is None or t2 is None:
+        col.bad(R, "shape", "could not read the denormal test of error_is_accurate / shared::round", ea.loc())
+    else:
+        S = 64 - 52 - 1
+        pts = [-S - 2, -S - 1, -S, -S + 1, -S + 2]
+        v1 = [t1(x) for x in pts]
+        v2 = [t2(x) for x in pts]
+        col.check(R, "error_is_accurate~round", None not in v1 and v1 == v2,
+                  "error_is_accurate treats exponents %s as denormal but shared::round treats %s (around exp = -%d): for the boundary binade the near-halfway test looks at a different bit window than the rounding uses" %
+                  ([x for x, v in zip(pts, v1) if v], [x for x, v in zip(pts, v2) if v], S), ea.loc())
+    # the error count is used unscaled
+    R2 = "UNIT-errors"
+    bad = []
+    for i, b in enumerate(ea.blocks):
+        if not ea.live(i):
+            continue
+        for st in b["s"]:
+            if st[0] == "=" and st[2][0] == "bin" and (st[2][1].startswith("Div") or st[2][1].startswith("Shr")):
+                e = strip_casts(rvalue_expr(ea, st[2], 0))
+                if any(x[:2] == ("arg", 1) for x in walk(e[2])):
+                    bad.append(ea.loc(st[3]))
+    col.check(R2, "error_is_accurate:raw-count", not bad, "the error count is divided / shifted down before the near-halfway comparison: errors below one scale unit vanish (the comparison relies on the raw 1/8-ulp count as its margin)", bad[0] if bad else ea.loc())
+
+
+def walk(e):
+    if isinstance(e, tuple):
+        yield e
+        for x in e:
+            if isinstance(x, tuple):
+                for y in walk(x):
+                    yield y
+
+
+def rule_grisu_weed(col, facts):
+    """PAIR-weed: Grisu's round_weed decrements the last digit only while rem < dist *and*
+    delta - rem >= kappa (the candidate stays inside the rounding interval)."""
+    if not facts.config.startswith("compact"):
+        return
+    R = "PAIR-weed"
+    f = facts.fn(WF + "compact::round_digit")
+    n = 0
+    for i, b in enumerate(f.blocks):
+        if not f.live(i):
+            continue
+        for st in b["s"]:
+            if st[0] == "=" and st[2][0] == "bin" and st[2][1].startswith("Sub"):
+                e = strip_casts(rvalue_expr(f, st[2], 0))
+                if strip_casts(e[3]) == ("k", 1) and "idx" in str(e[2]):
+                    n += 1
+                    conds = path_conditions(f, i)
+                    def is_arg(x, k):
+                        return strip_casts(x)[:2] == ("arg", k)
+                    c1 = any(strip_casts(c)[0] == "bin" and strip_casts(c)[1] == "Lt" and is_arg(strip_casts(c)[2], 4) and is_arg(strip_casts(c)[3], 6) and p is True for _d, c, p in conds)
+                    c2 = any(strip_casts(c)[0] == "bin" and strip_casts(c)[1] == "Ge" and p is True and strip_casts(strip_casts(c)[2])[0] == "bin" and strip_casts(strip_casts(c)[2])[1] == "Sub"
+                             and is_arg(strip_casts(strip_casts(c)[2])[2], 3) and is_arg(strip_casts(strip_casts(c)[2])[3], 4) and is_arg(strip_casts(c)[3], 5) for _d, c, p in conds)
+                    col.check(R, "round_digit:decrement", c1 and c2,
+                              "the last digit is decremented without both `rem < dist` and `delta - rem >= kappa`: the candidate can leave the rounding interval (output no longer round-trips for asymmetric intervals, i.e. powers of two)", f.loc(st[3]))
+    col.floor(R, "digit decrements in round_digit", n, 1)
+
+
+def rule_step_helper_agreement(col, facts):
+    """PAIR-step: every function that splits a u128 with u128_divrem(value, radix) must count / write
+    chunks of exactly u64_step(radix) digits (the divisor is radix^u64_step)."""
+    if facts.config.startswith("compact") or ("power-of-two" not in facts.config and "radix" not in facts.config):
+        return
+    R = "PAIR-step"
+    n = 0
+    for f in facts.all_fns():
+        if f.crate not in ("lexical_write_integer", "lexical_write_float"):
+            continue
+        names = [callee_name(c) for _b, c, _a, _d, _t in f.calls()]
+        if "lexical_util::div128::u128_divrem" not in names:
+            continue
+        n += 1
+        steps = sorted({last_seg(x) for x in names if x.startswith("lexical_util::step::")})
+        col.check(R, f.short, steps == ["u64_step"], "uses %s together with u128_divrem (whose divisor is radix^u64_step): digit counts / zero padding of the chunks disagree with the divisor" % (steps or "no step helper"), f.loc())
+    col.floor(R, "users of u128_divrem", n, 2)
+
+
+def rule_complete_special_returns(col, facts):
+    """MPT-complete (None): parse_special may give up only because the partial special parser did, or
+    because count != length; any other early None makes complete and partial disagree."""
+    R = "MPT-complete"
+    f = facts.fn(PF + "parse::parse_special")
+    n = 0
+    for i, b in enumerate(f.blocks):
+        if not f.live(i):
+            continue
+        for st in b["s"]:
+            if st[0] == "=" and st[1] == [0, []] and st[2][0] == "agg" and st[2][1][0] == "adt" and st[2][1][3] == "None":
+                n += 1
+                alts = reach_alternatives(f, i)
+                ok = True
+                for alt in alts:
+                    good = False
+                    for _d, e, p in alt:
+                        e2 = strip_casts(e)
+                        if e2[0] == "discr" and any(x[1].endswith("parse::parse_partial_special") for x in expr_calls(e2)) and pol_is_variant(p, 0):
+                            good = True
+                        if e2[0] == "bin" and e2[1] == "Eq" and "buffer_length" in str(e2) and p is False:
+                            good = True
+                    ok = ok and good
+                col.check(R, "parse_special:None#%d" % n, ok, "parse_special returns None on a path where neither parse_partial_special returned None nor count != length: %s" %
+                          [[(show(e)[:50], p) for _d, e, p in alt][-2:] for alt in alts], f.loc(st[3]))
+    col.floor(R, "None returns in parse_special", n, 1)
+
+
+def rule_suffix_needs_digit(col, facts):
+    """PAIR-suffix: an integer base suffix is honoured only after at least one digit
+    (`cursor - start_index > 1`: the cursor is already past the suffix byte)."""
+    if "format" not in facts.config:
+        return
+    R = "PAIR-suffix"
+    n = 0
+    for name in ("algorithm_complete", "algorithm_partial"):
+        f = facts.fn("lexical_parse_integer::algorithm::" + name)
+        seen = False
+        for i, b in enumerate(f.blocks):
+            t = b["t"]
+            if t["k"] == "switch" and f.live(i) and "fmt_invalid_digit" in f.macros(b["ts"]):
+                e = strip_casts(op_expr(f, t["d"]))
+                if e[0] == "bin" and e[1] in ("Gt", "Ge", "Lt", "Le", "Ne", "Eq") and strip_casts(e[2])[0] == "bin" and strip_casts(e[2])[1] == "Sub" and any(x[1].endswith("::cursor") for x in expr_calls(e)):
+                    k = strip_casts(e[3])
+                    n += 1
+                    seen = True
+                    ok = (e[1] == "Gt" and k == ("k", 1)) or (e[1] == "Ge" and k == ("k", 2))
+                    col.check(R, name, ok, "the base-suffix branch requires `cursor - start %s %s`; with the cursor already past the suffix byte, at least one digit needs `> 1`" % (e[1], show(k)), f.loc(b["ts"]))
+        col.check(R, name + ":present", seen, "no digit-count guard found on the base-suffix branch", f.loc())
